@@ -445,7 +445,7 @@ def sweep_module():
     return src, ref
 
 
-def sweep_cases(ck):
+def sweep_cases(ck, full16=True):
     cases = []
     rng = ck.rng('sweep')
     for t in SMALL_SWEEP:
@@ -453,7 +453,7 @@ def sweep_cases(ck):
         nb = 1 << CT[t][1]
         if CT[t][1] == 8:
             ranges = [(a, a + 16) for a in range(lo, hi + 1, 16)]
-        elif ck.quick:
+        elif ck.quick or not full16:
             avals = set(R.boundary(t)) | {rng.randint(lo, hi) for _ in range(60)}
             ranges = [(a, a + 1) for a in sorted(avals)]
         else:
@@ -826,7 +826,8 @@ def main(ck):
             fh.write(swref)
         ctext = open(inf['c'], encoding='utf-8', errors='replace').read()
         fb = creach.function_bodies(ctext)
-        sw = sweep_cases(ck)
+        # all 4.3e9 pairs of the 16-bit types only in the default configuration
+        sw = sweep_cases(ck, full16=(cfgname == 'default'))
         unreached = set()
         with st.lock:
             for t in SMALL_SWEEP + WIDE_SWEEP:
